@@ -400,6 +400,25 @@ impl StaticMetadata {
             named_instances.clear();
         };
 
+        // fvar points every instance at a name record, and an empty string gets no
+        // usable record: an instance without a name cannot be expressed (fonttools
+        // refuses to build it), an empty postscript name is the same as none.
+        named_instances.retain(|instance| {
+            if instance.name.is_empty() {
+                log::warn!("Ignoring the unnamed instance at {:?}", instance.location);
+            }
+            !instance.name.is_empty()
+        });
+        for instance in &mut named_instances {
+            if instance
+                .postscript_name
+                .as_ref()
+                .is_some_and(|name| name.is_empty())
+            {
+                instance.postscript_name = None;
+            }
+        }
+
         // Claim names for axes and named instances, after any id the source already uses
         let mut name_id_gen = names
             .keys()
